@@ -8,6 +8,7 @@ import warnings
 from tools.lib import common as C
 from tools.lib import findings as F
 from tools.lib import gen as G
+from tools.lib import impl as I
 from tools.lib import proofs as P
 
 LEVEL = "other"
@@ -127,6 +128,74 @@ def kf06_variable(obj, var, dim_tuple, grouper_dims, func):
     return any(d not in vd for d in grouper_dims) or any(d not in vd for d in dim_tuple)
 
 
+def masking_oracle(run, obj, gname, func, dim, desc):
+    import numpy as np
+    import pandas as pd
+    import xarray as xr
+
+    import flox.xarray as fx
+
+    dim_tuple = (dim,) if isinstance(dim, str) else tuple(dim)
+    by = obj[gname].compute()
+    labels = np.unique(by.values[~pd.isnull(by.values)])
+    try:
+        with warnings.catch_warnings():
+            warnings.simplefilter("ignore")
+            kw = {"min_count": 1} if func == "sum" else {}
+            pieces = [getattr(obj.where(by == g), func)(dim=dim_tuple, skipna=True, **kw) for g in labels]
+            want = xr.concat(pieces, dim=pd.Index(labels, name=gname)).compute()
+            got = fx.xarray_reduce(obj, gname, func=func, dim=dim, fill_value=np.nan, expected_groups=labels).compute()
+    except (ValueError, NotImplementedError):
+        run.extra["refused_cases"] = run.extra.get("refused_cases", 0) + 1
+        return
+    run.count("mask|" + json.dumps(desc, sort_keys=True), True)
+    run.extra["masking_oracle_cases"] = run.extra.get("masking_oracle_cases", 0) + 1
+    ok = set(got.dims) == set(want.dims)
+    if ok:
+        g = np.asarray(got.transpose(*want.dims).values, dtype=float)
+        ok = np.allclose(g, np.asarray(want.values, dtype=float), equal_nan=True)
+    if not ok:
+        run.violation({"property": "C15", "kind": "xarray_reduce differs from the grouped reduction of the underlying arrays (masking oracle; native xarray refuses this request)",
+                       "case": desc, "got_dims": list(got.dims), "want_dims": list(want.dims),
+                       "got": np.asarray(got.values, dtype=float).reshape(-1).tolist()[:40],
+                       "want": np.asarray(want.transpose(*got.dims).values if set(got.dims) == set(want.dims) else want.values, dtype=float).reshape(-1).tolist()[:40]}, tag="mask")
+
+
+def nd_grouper_cases(run, rng, n):
+    """2-D / 3-D grouping coordinates (mostly with equally long dims, where a mis-transposed label array goes unnoticed),
+    object dims in any order, dim = any non-empty subset of the grouper's dims in any order (+ possibly another dim):
+    decided by the masking oracle (native xarray refuses most of these)"""
+    import numpy as np
+    import xarray as xr
+
+    for _ in range(n):
+        ndim = rng.randint(2, 4)
+        names = ["x", "y", "z", "w"][:ndim]
+        rng.shuffle(names)
+        side = rng.choice([2, 3])
+        sizes = {d: (side if rng.random() < 0.8 else rng.randint(2, 4)) for d in names}
+        gnd = rng.randint(2, min(3, ndim))
+        gd = rng.sample(names, gnd)
+        vals = np.array([float(rng.choice(G.ALPHA_FINITE)) for _ in range(int(np.prod([sizes[d] for d in names])))]).reshape([sizes[d] for d in names])
+        if rng.random() < 0.4:
+            vals[np.array([rng.random() < 0.15 for _ in range(vals.size)]).reshape(vals.shape)] = np.nan
+        labs = np.array([rng.randrange(3) for _ in range(int(np.prod([sizes[d] for d in gd])))]).reshape([sizes[d] for d in gd])
+        obj = xr.DataArray(vals, dims=names, name="v").assign_coords(lab=(tuple(gd), labs))
+        if rng.random() < 0.4:
+            obj = obj.chunk({d: rng.randint(1, sizes[d]) for d in names})
+            obj = obj.assign_coords(lab=obj["lab"].compute())
+        k = rng.randint(1, gnd)
+        dim = rng.sample(gd, k)
+        others = [d for d in names if d not in gd]
+        if others and rng.random() < 0.3:
+            dim.append(rng.choice(others))
+        rng.shuffle(dim)
+        func = rng.choice(["sum", "max", "min", "mean"])
+        desc = {"kind": "nd-grouper", "dims": names, "sizes": sizes, "grouper_dims": gd, "labels": labs.tolist(), "dim": dim, "func": func,
+                "vals": [I.fnum(x) for x in vals.reshape(-1)]}
+        masking_oracle(run, obj, "lab", func, dim if len(dim) > 1 or rng.random() < 0.5 else dim[0], desc)
+
+
 def cases(run, rng, n, maxdim):
     import numpy as np
     import xarray as xr
@@ -209,6 +278,11 @@ def cases(run, rng, n, maxdim):
             key = f"{func}: {type(e).__name__}: {str(e)[:70]}"
             run.extra.setdefault("native_refusal_messages", {})
             run.extra["native_refusal_messages"][key] = run.extra["native_refusal_messages"].get(key, 0) + 1
+            # second clause of the property: the VALUES equal the grouped reduction of the underlying arrays.  Where native
+            # xarray refuses (n-D grouper with dim a subset / another order), a masking oracle written with plain xarray ops decides.
+            if (len(groupers) == 1 and not groupers[0][3] and bins is None and not dataset and skipna is not False
+                    and func in ("sum", "max", "min", "mean") and dim is not None and dim is not ...):
+                masking_oracle(run, obj, groupers[0][0], func, dim, desc)
             continue
         dim_tuple = tuple(names) if dim is ... else tuple(grouper_dims) if dim is None else (dim,) if isinstance(dim, str) else tuple(dim)
         try:
@@ -312,6 +386,7 @@ def run(run: C.Run):
     thorough = run.tier == "thorough"
     restore_cases(run, rng, 3000 if thorough else 600)
     cases(run, rng, 6000 if thorough else 500, 4 if thorough else 3)
+    nd_grouper_cases(run, rng, 2000 if thorough else 250)
     if any(not o[1] for o in run.obligations) and not run.violations:
         run.violation({"property": "C15", "kind": "proof obligation no longer checks", "failed": P.failed_obligations(run)}, nofail=True, tag="obligation")
     run.cov["explanation"] = (
